@@ -601,7 +601,12 @@ fn flatten_use_tree(tree: &syn::UseTree) -> Vec<Vec<String>> {
                 .collect()
         }
         syn::UseTree::Name(name) => {
-            vec![vec![name.ident.to_string()]]
+            // `a::b::{self}` names `a::b` itself, as in Rust
+            if name.ident == "self" {
+                vec![vec![]]
+            } else {
+                vec![vec![name.ident.to_string()]]
+            }
         }
         syn::UseTree::Group(g) => {
             g.items.iter().flat_map(flatten_use_tree).collect()
